@@ -48,6 +48,9 @@ class StreamableHTTPTransport(Transport):
         self._pending_requests: Dict[str, asyncio.Future] = {}
         self._message_lock = asyncio.Lock()
 
+        # Id of the request currently being sent, until a response for it is routed
+        self._unanswered_id: Any = None
+
         # Request handling
         self._outgoing_task: Optional[asyncio.Task] = None
         self._request_semaphore = asyncio.Semaphore(self.max_concurrent_requests)
@@ -146,6 +149,9 @@ class StreamableHTTPTransport(Transport):
             method = message_dict.get("method", "unknown")
 
             logger.debug(f"Sending HTTP message: {method} (id: {message_id})")
+
+            # A request (it has an id and a method) must end with a response
+            self._unanswered_id = message_id if "method" in message_dict else None
 
             # Prepare headers - MUST accept both JSON and SSE
             headers = {
@@ -303,6 +309,22 @@ class StreamableHTTPTransport(Transport):
                         "jsonrpc": "2.0",
                         "id": message_id,
                         "error": {"code": -32603, "message": str(e)},
+                    }
+                    await self._route_response(error_response)
+
+                # The answer contained no response for this request (empty or
+                # truncated stream, unrelated or malformed content): complete the
+                # request with an error instead of leaving the caller waiting.
+                if self._unanswered_id is not None:
+                    self._unanswered_id = None
+                    logger.debug(f"No response for {message_id} in server answer")
+                    error_response = {
+                        "jsonrpc": "2.0",
+                        "id": message_id,
+                        "error": {
+                            "code": -32603,
+                            "message": "Server answer contained no response for the request",
+                        },
                     }
                     await self._route_response(error_response)
 
@@ -468,6 +490,14 @@ class StreamableHTTPTransport(Transport):
 
             # Create JSON-RPC message
             message = JSONRPCMessage.model_validate(response_data)  # type: ignore[attr-defined]
+
+            # A response carrying the id of the request being sent completes it
+            if (
+                message.method is None
+                and message.id is not None
+                and message.id == self._unanswered_id
+            ):
+                self._unanswered_id = None
 
             # Check if this is a response (has id but no method)
             if hasattr(message, "id") and message.id and not hasattr(message, "method"):
